@@ -92,8 +92,9 @@ def run(scenario, tape_values):
 
     kids = [mk(c) for c in sc["children"]]
     # every world starts from the state of a fresh interpreter: class-level defaults are process state
-    UniformComposite.children = []
-    WeightedComposite.children = []
+    for cls_ in (UniformComposite, WeightedComposite):
+        if isinstance(cls_.__dict__.get("children"), list):  # (leave descriptors of the code under test alone)
+            cls_.children = []
     comp = UniformComposite(*kids) if kind == "uniform" else WeightedComposite(*kids, weight=kind)
     expected = list(kids)  # the children this composite was given, kept by the harness
     if sc.get("bystander"):
